@@ -233,7 +233,7 @@ class InterpKernel(FragmentTask):
             return
         ad = out.value.get("all_data")
         ok = isinstance(ad, list) and len(ad) == self.nf and all(isinstance(a, NDArray) and a.ndim == 2 for a in ad)
-        ctx.oblige("post.one-array-per-field", ok, "P")
+        ctx.structure("post.one-array-per-field", ok)
         if not ok:
             return
         NX, NY, pos, NL, NR = inp["NX"], inp["NY"], inp["pos"], inp["NL"], inp["NR"]
@@ -284,7 +284,7 @@ class InterpKernelByLevel(InterpKernel):
         ad = out.value.get("all_data")
         ok = isinstance(ad, list) and len(ad) == self.nlev and all(isinstance(l, list) and len(l) == self.nf and
                                                                    all(isinstance(a, NDArray) and a.ndim == 2 for a in l) for l in ad)
-        ctx.oblige("post.one-array-per-level-and-field", ok, "P")
+        ctx.structure("post.one-array-per-level-and-field", ok)
         if not ok:
             return
         NX, NY, pos, NL, NR = inp["NX"], inp["NY"], inp["pos"], inp["NL"], inp["NR"]
@@ -448,7 +448,7 @@ class PlaneCoordinates(Task):
             return
         v = out.value
         ok = isinstance(v, tuple) and len(v) == 2 and all(isinstance(a, NDArray) and a.ndim == 1 for a in v)
-        ctx.oblige("post.two-coordinate-vectors", ok, "P")
+        ctx.structure("post.two-coordinate-vectors", ok)
         if not ok:
             return
         lim, DX, N, glo = inp["lim"], inp["DX"], inp["N"], inp["glo"]
@@ -492,7 +492,7 @@ class FormatArrayOutput(Task):
             return
         o = out.value
         ok = isinstance(o, dict)
-        ctx.oblige("post.returns-a-dict", ok, "P")
+        ctx.structure("post.returns-a-dict", ok)
         if not ok:
             return
         real = [k for k in self.fidxs if k is not None]
@@ -585,7 +585,7 @@ class SliceComposition(Task):
         ctx.oblige("post.returns-the-formatted-reduction", out.value is inp["marker_out"] and got.get("formatted_from") is inp["marker_all"], "P")
         pd = got.get("plane_data")
         ok = isinstance(pd, SymSeq)
-        ctx.oblige("post.reduction-gets-the-per-level-lists", ok, "P")
+        ctx.structure("post.reduction-gets-the-per-level-lists", ok)
         if ok:
             ctx.oblige("post.every-level-up-to-the-limit-with-its-own-inputs-in-order",
                        veq(ctx, pd, SymSeq(L + 1, lambda l: SymSeq(NI(to_z3(l)), lambda i: OUT(IN(to_z3(l), to_z3(i))), "list"), "list")), "P")
@@ -727,7 +727,7 @@ class PlateCovering(Task):
             return
         ad = inp["got"].get("all_data")
         ok = isinstance(ad, list) and len(ad) == 1 and isinstance(ad[0], NDArray) and ad[0].ndim == 2
-        ctx.oblige("post.one-array-handed-to-the-formatter", ok, "P")
+        ctx.structure("post.one-array-handed-to-the-formatter", ok)
         if not ok:
             return
         a = ad[0]
